@@ -144,6 +144,9 @@ def gen_space_retry(rng):
         kind = rng.choice(["int", "bool", "choice"])
         args = (0, rng.randint(1, 2)) if kind == "int" else (rng.random() < 0.5,) if kind == "bool" else (rng.sample(["p", "q", "r"], 2), None)
         spec.append(["h%d" % i, kind, args, None if rng.random() < 0.6 else 0, None])
+    if rng.random() < 0.5:
+        # a child below an entry that is itself discovered only inside the trials
+        spec.append(["h%d" % len(spec), "int", (1, rng.randint(2, 3)), 1, None])
     return spec
 
 
@@ -195,7 +198,8 @@ def run_case(seed, dynamic=False, family=None):
         declare(hps, spec, [], rng)
     else:
         declare(hps, spec, [None] * len(spec), rng, only=upfront)
-    cfg = dict(max_retries=rng.choice([0, 0, 1]) if family != "retry" else rng.choice([1, 2, 3]), max_consec=50)
+    cfg = dict(max_retries=rng.choice([0, 0, 1]) if family != "retry" else rng.choice([0, 1, 2, 3]), max_consec=50)
+    cfg["die_final"] = family == "retry" and rng.random() < 0.5     # also the last (FAILED) run of a trial may die before declaring anything - once the whole tree is known to the oracle
     W = rng.randint(1, 3) if family != "retry" else rng.randint(2, 4)
     p_invalid = 0.15 if family != "retry" else 0.35
     p_ok = 0.7 if family != "lazy" else 0.45     # lazy: the trial that discovers an entry often fails
@@ -225,10 +229,12 @@ def run_case(seed, dynamic=False, family=None):
                 will_retry = p_ok <= r < p_ok + p_invalid and o._run_times[t.trial_id] + 1 <= cfg["max_retries"]
                 if family == "lazy":
                     declare_lazy(t.hyperparameters, spec)
-                elif dynamic and family != "samename" and not (family == "retry" and will_retry and rng.random() < 0.6):
+                elif dynamic and family != "samename" and not (family == "retry" and (will_retry or (r >= p_ok and cfg.get("die_final") and len(o.hyperparameters.space) == len(full.space))) and rng.random() < 0.6):
                     # the build function declares the whole tree. In the retry family a crashing run that will be retried may die
-                    # before it gets there; the last run of a trial always declares (uniform discovery: otherwise the grid cannot
-                    # know the combinations below a trial that never told it about them)
+                    # before it gets there, and so may a last run once the oracle knows the whole tree (the trial then ends without
+                    # values for the entries discovered since it was created: they count as defaults). A last run that dies BEFORE the
+                    # discovery is excluded: the grid does not return to a trial that ended before an entry was discovered
+                    # (gridsearch_test.test_new_hp pins that behaviour)
                     declare(t.hyperparameters, spec, [None] * len(spec), rng)
                 if r < p_ok: o.update_trial(t.trial_id, {"score": float(rng.randint(-3, 3))}); t.status = "COMPLETED"; oc = "ECompleted"
                 elif r < p_ok + p_invalid: t.status = "INVALID"; oc = "EInvalid"
@@ -320,6 +326,72 @@ Definition cases : list (cfg * list hp * list (@op V) * list (eresp * (list stat
 FOOTER = "\n].\nEval vm_compute in (map (fun c => let '(cf, sp, ops, ob) := c in first_diff 0 (obs_of cf sp ops) ob) cases).\n"
 
 
+def latecrash_case(rng):
+    """several workers hold trials created before anything was discovered; the first to finish declares the whole tree, one or
+    more of the others then crash for good WITHOUT having declared anything (their values lack the new entries, which count as
+    defaults); the search goes on to STOPPED: every combination of the tree exactly once"""
+    import keras_tuner as kt
+    from keras_tuner.engine import hyperparameters as hpm
+    from keras_tuner.tuners import gridsearch
+    warnings.filterwarnings("ignore")
+    a_vals = rng.sample(["x", "y", "z"], rng.randint(2, 3)); p_bool = rng.random() < 0.5; cmax = rng.randint(2, 3); with_d = rng.random() < 0.3
+    pd = False if p_bool else "u"
+
+    def tree(hp):
+        p = hp.Boolean("p") if p_bool else hp.Choice("p", ["u", "v"])
+        with hp.conditional_scope("p", [pd]):
+            hp.Int("c", 1, cmax)
+        if with_d: hp.Boolean("d")
+    hps = hpm.HyperParameters(); hps.Choice("a", a_vals)
+    full = hps.copy(); tree(full)
+    d = tempfile.mkdtemp(prefix="ktv09l_")
+    try:
+        o = gridsearch.GridSearchOracle(objective=kt.Objective("score", "min"), hyperparameters=hps, max_retries_per_trial=0, max_consecutive_failed_trials=50)
+        o._set_project_dir(d, "p"); o._display.verbose = 0
+        W = rng.randint(2, min(3, len(a_vals)))
+        first = [o.create_trial("w%d" % w) for w in range(W)]
+        if any(t.status != "RUNNING" for t in first):
+            return None
+
+        def finish(t, crash):
+            if crash:
+                t.status = "FAILED"
+            else:
+                tree(t.hyperparameters); o.update_trial(t.trial_id, {"score": 1.0}); t.status = "COMPLETED"
+            o.end_trial(t)
+        finish(first[0], False)
+        for t in first[1:]:
+            finish(t, rng.random() < 0.7)
+        held = {}; stopped = set()
+        for _ in range(400):
+            if len(stopped) == W: break
+            w = rng.randrange(W); tn = "w%d" % w
+            if tn in held:
+                finish(held.pop(tn), rng.random() < 0.15)
+            elif w not in stopped:
+                t = o.create_trial(tn)
+                if t.status == "RUNNING": held[tn] = t
+                elif t.status == "STOPPED": stopped.add(w)
+        if len(stopped) < W:
+            return "the grid search did not reach STOPPED within 400 operations"
+        want = [canon(c) for c in all_combos(full)]; got = []
+        for i in sorted(o.trials, key=int):
+            v = dict(o.trials[i].hyperparameters.values)
+            for h in full.space:
+                if h.name not in v and all(c.is_active(v) for c in h.conditions):
+                    v[h.name] = h.default
+            got.append(canon(v))
+        if len(set(got)) != len(got):
+            dup = [g for g in got if got.count(g) > 1][0]
+            return "combination %r was started %d times" % (dict(dup), got.count(dup))
+        if set(got) != set(want):
+            return "STOPPED after %d of %d combinations; never tried: %r (a in %r, %d workers, crashed without declaring: trials created before the discovery)" % (
+                len(got), len(want), [dict(x) for x in want if x not in got][:3], a_vals, W)
+        return None
+    finally:
+        shutil.rmtree(d, ignore_errors=True)
+
+
 def run(ctx):
     n = ctx.n(150, 2500); ndyn = ctx.n(120, 1600)
     terms = []; infos = []; failures = []
@@ -346,6 +418,12 @@ def run(ctx):
         if key not in seen and info["ntrials"] >= 3:
             distinct += 1
         seen.add(key)
+    for j in range(ctx.n(60, 600)):
+        msg = latecrash_case(ctx.rng)
+        stats["latecrash_cases"] = stats.get("latecrash_cases", 0) + 1
+        if msg:
+            failures.append(Failure("violation", "C09/not-all-visited-latecrash", msg, {"note": "regenerated from the run seed"}))
+            break
     verdicts, errors, wall = runcoq.run_cases(ctx.workdir, HEADER, terms, FOOTER, chunk=15)
     for path, rc, err in errors:
         failures.append(Failure("harness", "C09/coqc", "coqc failed on %s: %s" % (path, err[-300:]), {"correspondence": "C09", "file": path}))
